@@ -886,7 +886,15 @@ class Engine:
             aborted = True
         except Exception as e:
             raised_tb = traceback.format_exc(limit=12)
-            if blame(e) == "repo" and self.o.get("frame"):
+            if "HardTimeout" in repr(e):
+                # the hard wall-clock alarm fired inside a solver (ctypes) call and surfaced wrapped in an ArgumentError:
+                # it is a time limit, not a property of the code or of the harness
+                aborted = True
+                self.stats["aborted_paths"] += 1
+                self.stats["incomplete"] = True
+                self._hard_stop = True
+                self.undecided_names.append(f"hard time limit hit inside a solver call @ {self.config}")
+            elif blame(e) == "repo" and self.o.get("frame"):
                 aborted = True          # frame mode: an exception of the code under test is the host property's business
                 self.stats["aborted_paths"] += 1
             elif blame(e) == "repo":
@@ -1027,7 +1035,11 @@ class Engine:
 
     def _explore(self):
         self.work = [[]]
+        self._hard_stop = False
         while self.work:
+            if self._hard_stop:
+                self.stats["incomplete"] = True
+                break
             if self.stats["paths"] >= self.o["max_paths"]:
                 self.stats["incomplete"] = True
                 break
